@@ -23,17 +23,17 @@ const VerifMaxHostInfosPerVpnIp = MaxHostInfosPerVpnIp
 
 var verifHostmapLogger = slog.New(slog.DiscardHandler)
 
-// verifScriptedRand serves 4-byte big-endian candidates from a script; once the script is exhausted it serves
+// verifHMScriptedRand serves 4-byte big-endian candidates from a script; once the script is exhausted it serves
 // fallback values (never an error: crypto/rand.Read aborts the process on a reader error). Every value
 // served is recorded, so the model is given exactly the stream the implementation consumed.
-type verifScriptedRand struct {
+type verifHMScriptedRand struct {
 	script   []uint32
 	pos      int
 	fallback *uint32
 	served   []uint32
 }
 
-func (r *verifScriptedRand) Read(p []byte) (int, error) {
+func (r *verifHMScriptedRand) Read(p []byte) (int, error) {
 	n := 0
 	for len(p)-n >= 4 {
 		var v uint32
@@ -70,19 +70,19 @@ type VerifHM struct {
 	fallback uint32
 }
 
-const VerifUnknownID = 999999999
+const VerifHMUnknownID = 999999999
 
-func VerifAddr(a uint64) netip.Addr {
+func VerifHMAddr(a uint64) netip.Addr {
 	return netip.AddrFrom4([4]byte{10, byte(a >> 16), byte(a >> 8), byte(a)})
 }
 
-func verifAddrNum(a netip.Addr) uint64 {
+func verifHMAddrNum(a netip.Addr) uint64 {
 	if !a.Is4() {
-		return VerifUnknownID
+		return VerifHMUnknownID
 	}
 	b := a.As4()
 	if b[0] != 10 {
-		return VerifUnknownID
+		return VerifHMUnknownID
 	}
 	return uint64(b[1])<<16 | uint64(b[2])<<8 | uint64(b[3])
 }
@@ -112,7 +112,7 @@ func VerifNewHM() *VerifHM {
 }
 
 func (v *VerifHM) withRand(script []uint32, fn func()) []uint32 {
-	r := &verifScriptedRand{script: script, fallback: &v.fallback}
+	r := &verifHMScriptedRand{script: script, fallback: &v.fallback}
 	old := crand.Reader
 	crand.Reader = io.Reader(r)
 	defer func() { crand.Reader = old }()
@@ -131,7 +131,7 @@ func (v *VerifHM) Known(id uint64) bool { _, ok := v.byID[id]; return ok }
 // Start calls the real StartHandshake. Returns the id of the pending hostinfo for addr and whether a new
 // one (registered under newID) was created.
 func (v *VerifHM) Start(newID uint64, addr uint64) (uint64, bool) {
-	a := VerifAddr(addr)
+	a := VerifHMAddr(addr)
 	var got *HandshakeHostInfo
 	h := v.hsm.StartHandshake(a, func(hh *HandshakeHostInfo) { got = hh })
 	if id, ok := v.ids[h]; ok {
@@ -179,7 +179,7 @@ func (v *VerifHM) Complete(id uint64, addrs []uint64, remote uint32) {
 	h := v.byID[id]
 	va := make([]netip.Addr, len(addrs))
 	for i, a := range addrs {
-		va[i] = VerifAddr(a)
+		va[i] = VerifHMAddr(a)
 	}
 	v.clock++
 	h.remoteIndexId = remote
@@ -194,7 +194,7 @@ func (v *VerifHM) Complete(id uint64, addrs []uint64, remote uint32) {
 func (v *VerifHM) Resp(id uint64, addrs []uint64, remote uint32, script []uint32) (outcome int, local uint32, served []uint32) {
 	va := make([]netip.Addr, len(addrs))
 	for i, a := range addrs {
-		va[i] = VerifAddr(a)
+		va[i] = VerifHMAddr(a)
 	}
 	served = v.withRand(script, func() {
 		local, _ = generateIndex(verifHostmapLogger)
@@ -238,7 +238,7 @@ func (v *VerifHM) MakePrimary(id uint64) bool {
 
 func (v *VerifHM) AddRelay(id uint64, peer uint64, script []uint32) (idx uint32, ok bool, served []uint32) {
 	served = v.withRand(script, func() {
-		i, err := AddRelay(verifHostmapLogger, v.byID[id], v.hm, VerifAddr(peer), nil, TerminalType, Requested)
+		i, err := AddRelay(verifHostmapLogger, v.byID[id], v.hm, VerifHMAddr(peer), nil, TerminalType, Requested)
 		idx, ok = i, err == nil
 	})
 	return
@@ -260,7 +260,7 @@ func (v *VerifHM) PendDelete(id uint64, viaTimeout bool) (timedOut bool) {
 
 // ---- canonical dump ---------------------------------------------------------------------------
 
-type VerifHI struct {
+type VerifHMInfo struct {
 	ID      uint64
 	Addrs   []uint64
 	Local   uint32
@@ -268,34 +268,34 @@ type VerifHI struct {
 	Relays  []uint32 // keys of relayState.relayForByIdx, sorted
 }
 
-type VerifKV struct{ K, V uint64 }
-type VerifKL struct {
+type VerifHMKV struct{ K, V uint64 }
+type VerifHMKL struct {
 	K uint64
 	L []uint64
 }
 
 type VerifHMDump struct {
-	Infos   []VerifHI // every hostinfo ever created, by id
-	Hosts   []VerifKV // Hosts: addr -> id
-	More    []VerifKL // moreHosts: addr -> ids
-	Indexes []VerifKV
-	Remote  []VerifKV
-	Relays  []VerifKV
-	PVpn    []VerifKV // pending vpnIps: addr -> id
-	PIdx    []VerifKV // pending indexes: index -> id
+	Infos   []VerifHMInfo // every hostinfo ever created, by id
+	Hosts   []VerifHMKV // Hosts: addr -> id
+	More    []VerifHMKL // moreHosts: addr -> ids
+	Indexes []VerifHMKV
+	Remote  []VerifHMKV
+	Relays  []VerifHMKV
+	PVpn    []VerifHMKV // pending vpnIps: addr -> id
+	PIdx    []VerifHMKV // pending indexes: index -> id
 }
 
 func (v *VerifHM) id(h *HostInfo) uint64 {
 	if h == nil {
-		return VerifUnknownID
+		return VerifHMUnknownID
 	}
 	if id, ok := v.ids[h]; ok {
 		return id
 	}
-	return VerifUnknownID
+	return VerifHMUnknownID
 }
 
-func verifSortKV(x []VerifKV) []VerifKV {
+func verifHMSortKV(x []VerifHMKV) []VerifHMKV {
 	sort.Slice(x, func(i, j int) bool { return x[i].K < x[j].K })
 	return x
 }
@@ -306,9 +306,9 @@ func (v *VerifHM) Dump() VerifHMDump {
 	sort.Slice(ids, func(i, j int) bool { return ids[i] < ids[j] })
 	for _, id := range ids {
 		h := v.byID[id]
-		hi := VerifHI{ID: id, Local: h.localIndexId, Remote: h.remoteIndexId}
+		hi := VerifHMInfo{ID: id, Local: h.localIndexId, Remote: h.remoteIndexId}
 		for _, a := range h.vpnAddrs {
-			hi.Addrs = append(hi.Addrs, verifAddrNum(a))
+			hi.Addrs = append(hi.Addrs, verifHMAddrNum(a))
 		}
 		hi.Relays = h.relayState.CopyRelayForIdxs()
 		sort.Slice(hi.Relays, func(i, j int) bool { return hi.Relays[i] < hi.Relays[j] })
@@ -316,39 +316,39 @@ func (v *VerifHM) Dump() VerifHMDump {
 	}
 	v.hm.RLock()
 	for a, h := range v.hm.Hosts {
-		d.Hosts = append(d.Hosts, VerifKV{verifAddrNum(a), v.id(h)})
+		d.Hosts = append(d.Hosts, VerifHMKV{verifHMAddrNum(a), v.id(h)})
 	}
 	for a, l := range v.hm.moreHosts {
-		kl := VerifKL{K: verifAddrNum(a)}
+		kl := VerifHMKL{K: verifHMAddrNum(a)}
 		for _, h := range l {
 			kl.L = append(kl.L, v.id(h))
 		}
 		d.More = append(d.More, kl)
 	}
 	for i, h := range v.hm.Indexes {
-		d.Indexes = append(d.Indexes, VerifKV{uint64(i), v.id(h)})
+		d.Indexes = append(d.Indexes, VerifHMKV{uint64(i), v.id(h)})
 	}
 	for i, h := range v.hm.RemoteIndexes {
-		d.Remote = append(d.Remote, VerifKV{uint64(i), v.id(h)})
+		d.Remote = append(d.Remote, VerifHMKV{uint64(i), v.id(h)})
 	}
 	for i, h := range v.hm.Relays {
-		d.Relays = append(d.Relays, VerifKV{uint64(i), v.id(h)})
+		d.Relays = append(d.Relays, VerifHMKV{uint64(i), v.id(h)})
 	}
 	v.hm.RUnlock()
 	v.hsm.RLock()
 	for a, hh := range v.hsm.vpnIps {
-		d.PVpn = append(d.PVpn, VerifKV{verifAddrNum(a), v.id(hh.hostinfo)})
+		d.PVpn = append(d.PVpn, VerifHMKV{verifHMAddrNum(a), v.id(hh.hostinfo)})
 	}
 	for i, hh := range v.hsm.indexes {
-		d.PIdx = append(d.PIdx, VerifKV{uint64(i), v.id(hh.hostinfo)})
+		d.PIdx = append(d.PIdx, VerifHMKV{uint64(i), v.id(hh.hostinfo)})
 	}
 	v.hsm.RUnlock()
-	verifSortKV(d.Hosts)
+	verifHMSortKV(d.Hosts)
 	sort.Slice(d.More, func(i, j int) bool { return d.More[i].K < d.More[j].K })
-	verifSortKV(d.Indexes)
-	verifSortKV(d.Remote)
-	verifSortKV(d.Relays)
-	verifSortKV(d.PVpn)
-	verifSortKV(d.PIdx)
+	verifHMSortKV(d.Indexes)
+	verifHMSortKV(d.Remote)
+	verifHMSortKV(d.Relays)
+	verifHMSortKV(d.PVpn)
+	verifHMSortKV(d.PIdx)
 	return d
 }
